@@ -467,8 +467,9 @@ pub fn read_back(ts: &TokenStream) -> Result<Gen, String> {
                         if let Some(em) = method_match(m, "self", &mut g) {
                             for a in arms(em, None, &name, &mut g).to_vec() {
                                 match variant_pat(&a.pat, &enum_name) {
+                                    // (the arms are told apart by their shape: a user variant may itself be called RawTag)
                                     Some((v, b)) if v == "RawTag" && b == ["id", "_data"] && nospace(&a.body) == "*id" && a.guard.is_none() => g.ids.push(("2".into(), "*".into())),
-                                    Some((v, b)) if v != "RawTag" && b == ["_"] && a.guard.is_none() && lit_u64(&a.body).is_some() => {
+                                    Some((v, b)) if b == ["_"] && a.guard.is_none() && lit_u64(&a.body).is_some() => {
                                         g.ids.push((name_of(&v), format!("{:x}", lit_u64(&a.body).unwrap())))
                                     }
                                     _ => g.problems.push(format!("arm:{}:{}", name, nospace(&a))),
@@ -481,7 +482,7 @@ pub fn read_back(ts: &TokenStream) -> Result<Gen, String> {
                             for a in arms(em, Some("None"), &name, &mut g).to_vec() {
                                 match variant_pat(&a.pat, &enum_name) {
                                     Some((v, b)) if v == "RawTag" && b == ["_id", "data"] && nospace(&a.body) == "Some(data)" && a.guard.is_none() => g.acc[k].push("2".into()),
-                                    Some((v, b)) if v != "RawTag" && b == ["val"] && nospace(&a.body) == "Some(val)" && a.guard.is_none() => g.acc[k].push(name_of(&v)),
+                                    Some((v, b)) if b == ["val"] && nospace(&a.body) == "Some(val)" && a.guard.is_none() => g.acc[k].push(name_of(&v)),
                                     _ => g.problems.push(format!("arm:{}:{}", name, nospace(&a))),
                                 }
                             }
